@@ -1,8 +1,301 @@
 import PyresampleModel.Model.C09
+import PyresampleModel.Proofs.Num
 
 /-
-  C09 — property theorems (stub: none yet).
+  C09 — property theorems: gradient search on an area source in its own CRS finds the exact
+  fractional source position of every target pixel inside the source grid, emits nothing outside,
+  and nn / bilinear read the pixels that position implies; the block decomposition's local-index
+  arithmetic does not move the chosen pixel.
 -/
 namespace PyresampleModel.C09
+
+/-- the exact fractional source line / pixel of a target position, for an area source in its own CRS -/
+def exactL (y0 dy Y : Rat) : Rat := (y0 - Y) / dy
+def exactP (x0 dx X : Rat) : Rat := (X - x0) / dx
+
+/-- **one Newton step on an area source is exact**: from any current pixel (l0, p0) the step lands on
+the exact fractional position -/
+theorem step_exact (x0 y0 dx dy X Y : Rat) (hdx : dx ≠ 0) (hdy : dy ≠ 0) (l0 p0 : Int) :
+    let f := affine x0 y0 dx dy
+    let ddx := X - f.sx l0 p0
+    let ddy := Y - f.sy l0 p0
+    let d := f.yl l0 p0 * f.xp l0 p0 - f.yp l0 p0 * f.xl l0 p0
+    d ≠ 0 ∧
+    (f.xp l0 p0 * ddy - f.yp l0 p0 * ddx) / d + l0 = exactL y0 dy Y ∧
+    (f.yl l0 p0 * ddx - f.xl l0 p0 * ddy) / d + p0 = exactP x0 dx X := by
+  simp only [affine, exactL, exactP]
+  refine ⟨?_, ?_, ?_⟩
+  · simp; exact ⟨hdy, hdx⟩
+  · field_simp; ring
+  · field_simp; ring
+
+/-- **soundness of the search**: whatever the start pixel, the carried-over state and the number of
+iterations, a position is emitted only for targets inside the source grid, and it is the exact one -/
+theorem search_sound (x0 y0 dx dy X Y : Rat) (hdx : dx ≠ 0) (hdy : dy ≠ 0) (lmax pmax : Int) :
+    ∀ (fuel : Nat) (cur last : Int × Int) (r : Found),
+      (searchLoop (affine x0 y0 dx dy) lmax pmax X Y fuel cur last).1 = some r →
+      indicesXY r = (exactP x0 dx X, exactL y0 dy Y) ∧
+      0 ≤ exactL y0 dy Y ∧ exactL y0 dy Y ≤ lmax ∧ 0 ≤ exactP x0 dx X ∧ exactP x0 dx X ≤ pmax := by
+  intro fuel
+  induction fuel with
+  | zero => intro cur last r h; simp [searchLoop] at h
+  | succ n ih =>
+    intro cur last r h
+    obtain ⟨l0, p0⟩ := cur
+    obtain ⟨hd, hL, hP⟩ := step_exact x0 y0 dx dy X Y hdx hdy l0 p0
+    try simp only at hd hL hP
+    unfold searchLoop at h
+    split at h
+    · simp only at h
+      rw [if_neg hd] at h
+      split at h
+      · split at h
+        · rename_i hemit
+          simp only [Option.some.injEq] at h
+          subst h
+          simp only [indicesXY]
+          rw [hL, hP] at hemit
+          exact ⟨by rw [hL, hP], hemit.1, hemit.2.1, hemit.2.2.1, hemit.2.2.2⟩
+        · simp at h
+      · exact ih _ _ r h
+    · exact ih _ _ r h
+
+theorem aux_trunc_range (L : Rat) (lmax : Int) (h0 : 0 ≤ L) (h1 : L ≤ lmax) :
+    0 ≤ pyTrunc L ∧ pyTrunc L ≤ lmax ∧ 0 ≤ L - pyTrunc L ∧ L - pyTrunc L < 1 := by
+  rw [pyTrunc_of_nonneg h0]
+  have a := pyFloor_le L
+  have b := lt_pyFloor_add_one L
+  refine ⟨pyFloor_nonneg.mpr h0, ?_, by linarith, by linarith⟩
+  have : ((pyFloor L : Int) : Rat) ≤ (lmax : Rat) := by linarith
+  exact_mod_cast this
+
+theorem aux_abs_lt_one (q : Rat) (h0 : 0 ≤ q) (h1 : q < 1) : absQ q < 1 := by
+  simp [absQ, h0, h1]
+
+/-- **completeness**: for a target position inside the source grid (the hull of the pixel centres) and
+any in-range start pixel, the search emits the exact position within its first two iterations -/
+theorem search_complete (x0 y0 dx dy X Y : Rat) (hdx : dx ≠ 0) (hdy : dy ≠ 0) (lmax pmax : Int)
+    (hL0 : 0 ≤ exactL y0 dy Y) (hL1 : exactL y0 dy Y ≤ lmax) (hP0 : 0 ≤ exactP x0 dx X) (hP1 : exactP x0 dx X ≤ pmax)
+    (fuel : Nat) (l0 p0 : Int) (last : Int × Int)
+    (hl : 0 ≤ l0 ∧ l0 ≤ lmax) (hp : 0 ≤ p0 ∧ p0 ≤ pmax) :
+    ∃ r, (searchLoop (affine x0 y0 dx dy) lmax pmax X Y (fuel + 2) (l0, p0) last).1 = some r ∧
+      indicesXY r = (exactP x0 dx X, exactL y0 dy Y) := by
+  obtain ⟨hd, hL, hP⟩ := step_exact x0 y0 dx dy X Y hdx hdy l0 p0
+  try simp only at hd hL hP
+  -- accepted iterations emit, because the position is inside
+  have accept : ∀ (n : Nat) (l p : Int) (lst : Int × Int), 0 ≤ l ∧ l ≤ lmax → 0 ≤ p ∧ p ≤ pmax →
+      absQ (exactP x0 dx X - p) < 1 ∧ absQ (exactL y0 dy Y - l) < 1 →
+      ∃ r, (searchLoop (affine x0 y0 dx dy) lmax pmax X Y (n + 1) (l, p) lst).1 = some r ∧
+        indicesXY r = (exactP x0 dx X, exactL y0 dy Y) := by
+    intro n l p lst hl' hp' hacc
+    obtain ⟨hd', hL', hP'⟩ := step_exact x0 y0 dx dy X Y hdx hdy l p
+    try simp only at hd' hL' hP'
+    unfold searchLoop
+    rw [if_pos ⟨hl'.1, hl'.2, hp'.1, hp'.2⟩]
+    simp only
+    rw [if_neg hd']
+    have e1 : ((affine x0 y0 dx dy).yl l p * (X - (affine x0 y0 dx dy).sx l p) - (affine x0 y0 dx dy).xl l p * (Y - (affine x0 y0 dx dy).sy l p)) /
+        ((affine x0 y0 dx dy).yl l p * (affine x0 y0 dx dy).xp l p - (affine x0 y0 dx dy).yp l p * (affine x0 y0 dx dy).xl l p) = exactP x0 dx X - p := by
+      linarith
+    have e2 : ((affine x0 y0 dx dy).xp l p * (Y - (affine x0 y0 dx dy).sy l p) - (affine x0 y0 dx dy).yp l p * (X - (affine x0 y0 dx dy).sx l p)) /
+        ((affine x0 y0 dx dy).yl l p * (affine x0 y0 dx dy).xp l p - (affine x0 y0 dx dy).yp l p * (affine x0 y0 dx dy).xl l p) = exactL y0 dy Y - l := by
+      linarith
+    rw [e1, e2, if_pos hacc]
+    have hem : 0 ≤ exactL y0 dy Y - l + l ∧ exactL y0 dy Y - l + l ≤ lmax ∧ 0 ≤ exactP x0 dx X - p + p ∧ exactP x0 dx X - p + p ≤ pmax := by
+      refine ⟨by linarith, by linarith, by linarith, by linarith⟩
+    rw [if_pos hem]
+    exact ⟨_, rfl, by simp [indicesXY]⟩
+  by_cases hacc : absQ (exactP x0 dx X - p0) < 1 ∧ absQ (exactL y0 dy Y - l0) < 1
+  · exact accept (fuel + 1) l0 p0 last hl hp hacc
+  · -- first iteration moves to (trunc L, trunc P), which is in range and accepted
+    unfold searchLoop
+    rw [if_pos ⟨hl.1, hl.2, hp.1, hp.2⟩]
+    simp only
+    rw [if_neg hd]
+    have e1 : ((affine x0 y0 dx dy).yl l0 p0 * (X - (affine x0 y0 dx dy).sx l0 p0) - (affine x0 y0 dx dy).xl l0 p0 * (Y - (affine x0 y0 dx dy).sy l0 p0)) /
+        ((affine x0 y0 dx dy).yl l0 p0 * (affine x0 y0 dx dy).xp l0 p0 - (affine x0 y0 dx dy).yp l0 p0 * (affine x0 y0 dx dy).xl l0 p0) = exactP x0 dx X - p0 := by
+      linarith
+    have e2 : ((affine x0 y0 dx dy).xp l0 p0 * (Y - (affine x0 y0 dx dy).sy l0 p0) - (affine x0 y0 dx dy).yp l0 p0 * (X - (affine x0 y0 dx dy).sx l0 p0)) /
+        ((affine x0 y0 dx dy).yl l0 p0 * (affine x0 y0 dx dy).xp l0 p0 - (affine x0 y0 dx dy).yp l0 p0 * (affine x0 y0 dx dy).xl l0 p0) = exactL y0 dy Y - l0 := by
+      linarith
+    rw [e1, e2, if_neg hacc]
+    have t1 : (l0 : Rat) + (exactL y0 dy Y - l0) = exactL y0 dy Y := by ring
+    have t2 : (p0 : Rat) + (exactP x0 dx X - p0) = exactP x0 dx X := by ring
+    rw [t1, t2]
+    obtain ⟨a1, a2, a3, a4⟩ := aux_trunc_range _ lmax hL0 hL1
+    obtain ⟨b1, b2, b3, b4⟩ := aux_trunc_range _ pmax hP0 hP1
+    exact accept fuel _ _ last ⟨a1, a2⟩ ⟨b1, b2⟩ ⟨aux_abs_lt_one _ b3 b4, aux_abs_lt_one _ a3 a4⟩
+
+
+/-- `nn` takes the source pixel nearest to the exact position (for an emitted, hence inside, position) -/
+theorem nn_nearest (r : Found) (lmax pmax : Int)
+    (hl : 0 ≤ r.l0 ∧ r.l0 ≤ lmax) (hp : 0 ≤ r.p0 ∧ r.p0 ≤ pmax)
+    (hdl : absQ r.dl < 1) (hdp : absQ r.dp < 1)
+    (hL : 0 ≤ r.dl + r.l0 ∧ r.dl + r.l0 ≤ lmax) (hP : 0 ≤ r.dp + r.p0 ∧ r.dp + r.p0 ≤ pmax) :
+    let c := nnPixel r lmax pmax
+    0 ≤ c.1 ∧ c.1 ≤ lmax ∧ 0 ≤ c.2 ∧ c.2 ≤ pmax ∧
+    absQ ((indicesXY r).2 - c.1) ≤ 1/2 ∧ absQ ((indicesXY r).1 - c.2) ≤ 1/2 := by
+  have key : ∀ (d : Rat) (i0 imax : Int), 0 ≤ i0 → i0 ≤ imax → absQ d < 1 → 0 ≤ d + i0 → d + i0 ≤ imax →
+      let c := if d < -(1/2) ∧ i0 > 0 then i0 - 1 else if d > 1/2 ∧ i0 < imax then i0 + 1 else i0
+      0 ≤ c ∧ c ≤ imax ∧ absQ (d + i0 - c) ≤ 1/2 := by
+    intro d i0 imax h0 h1 hd hA hB
+    have hd' : -1 < d ∧ d < 1 := by
+      unfold absQ at hd; split at hd <;> constructor <;> linarith
+    simp only
+    split
+    · rename_i h
+      refine ⟨by omega, by omega, ?_⟩
+      push_cast; unfold absQ; split <;> linarith [h.1]
+    · rename_i h1'
+      split
+      · rename_i h
+        refine ⟨by omega, by omega, ?_⟩
+        push_cast; unfold absQ; split <;> linarith [h.1]
+      · rename_i h2'
+        refine ⟨h0, h1, ?_⟩
+        have a : -(1/2) ≤ d := by
+          by_contra hc; push Not at hc
+          have : ¬ i0 > 0 := fun hh => h1' ⟨hc, hh⟩
+          have : i0 = 0 := by omega
+          subst this; simp at hA; linarith
+        have b : d ≤ 1/2 := by
+          by_contra hc; push Not at hc
+          have : ¬ i0 < imax := fun hh => h2' ⟨hc, hh⟩
+          have : i0 = imax := by omega
+          subst this; linarith
+        have : d + i0 - i0 = d := by ring
+        rw [this]; unfold absQ; split <;> linarith
+  obtain ⟨a1, a2, a3⟩ := key r.dl r.l0 lmax hl.1 hl.2 hdl hL.1 hL.2
+  obtain ⟨b1, b2, b3⟩ := key r.dp r.p0 pmax hp.1 hp.2 hdp hP.1 hP.2
+  exact ⟨a1, a2, b1, b2, a3, b3⟩
+
+/-- `bil` brackets the exact position: on each axis the two indices are in range, at most one apart, and the
+weight places the interpolation point exactly at the fractional index -/
+theorem bil_brackets (r : Found) (lmax pmax : Int)
+    (hl : 0 ≤ r.l0 ∧ r.l0 ≤ lmax) (hp : 0 ≤ r.p0 ∧ r.p0 ≤ pmax)
+    (hdl : absQ r.dl < 1) (hdp : absQ r.dp < 1)
+    (hL : 0 ≤ r.dl + r.l0 ∧ r.dl + r.l0 ≤ lmax) (hP : 0 ≤ r.dp + r.p0 ∧ r.dp + r.p0 ≤ pmax) :
+    let b := bilParams r lmax pmax
+    (0 ≤ b.1 ∧ b.2.1 ≤ lmax ∧ 0 ≤ b.2.2.1 ∧ b.2.2.1 ≤ 1 ∧
+      (b.1 : Rat) + b.2.2.1 * ((b.2.1 : Rat) - b.1) = (indicesXY r).2 ∧ (b.2.1 = b.1 + 1 ∨ (b.2.1 = b.1 ∧ b.2.2.1 = 0))) ∧
+    (0 ≤ b.2.2.2.1 ∧ b.2.2.2.2.1 ≤ pmax ∧ 0 ≤ b.2.2.2.2.2 ∧ b.2.2.2.2.2 ≤ 1 ∧
+      (b.2.2.2.1 : Rat) + b.2.2.2.2.2 * ((b.2.2.2.2.1 : Rat) - b.2.2.2.1) = (indicesXY r).1 ∧
+      (b.2.2.2.2.1 = b.2.2.2.1 + 1 ∨ (b.2.2.2.2.1 = b.2.2.2.1 ∧ b.2.2.2.2.2 = 0))) := by
+  have key : ∀ (d : Rat) (i0 imax : Int), 0 ≤ i0 → i0 ≤ imax → absQ d < 1 → 0 ≤ d + i0 → d + i0 ≤ imax →
+      let t : Int × Int × Rat := if d < 0 then ((if 0 ≤ i0 - 1 then i0 - 1 else 0), i0, 1 + d)
+                      else (i0, (if i0 + 1 ≤ imax then i0 + 1 else imax), d)
+      0 ≤ t.1 ∧ t.2.1 ≤ imax ∧ 0 ≤ t.2.2 ∧ t.2.2 ≤ 1 ∧
+      (t.1 : Rat) + t.2.2 * ((t.2.1 : Rat) - t.1) = d + i0 ∧ (t.2.1 = t.1 + 1 ∨ (t.2.1 = t.1 ∧ t.2.2 = 0)) := by
+    intro d i0 imax h0 h1 hd hA hB
+    have hd' : -1 < d ∧ d < 1 := by
+      unfold absQ at hd; split at hd <;> constructor <;> linarith
+    simp only
+    split
+    · rename_i hneg
+      have hpos : 0 < i0 := by
+        by_contra hc
+        have : i0 = 0 := by omega
+        subst this; simp at hA; linarith
+      have : 0 ≤ i0 - 1 := by omega
+      rw [if_pos this]
+      refine ⟨this, h1, by linarith, by linarith, ?_, Or.inl (by simp)⟩
+      push_cast; ring
+    · rename_i hnn
+      push Not at hnn
+      split
+      · rename_i hlt
+        refine ⟨h0, hlt, hnn, by linarith, ?_, Or.inl rfl⟩
+        push_cast; ring
+      · rename_i hge
+        have : i0 = imax := by omega
+        subst this
+        have hz : d = 0 := by linarith
+        refine ⟨h0, le_refl _, hnn, by linarith, ?_, Or.inr ⟨rfl, hz⟩⟩
+        rw [hz]; ring
+  have A := key r.dl r.l0 lmax hl.1 hl.2 hdl hL.1 hL.2
+  have B := key r.dp r.p0 pmax hp.1 hp.2 hdp hP.1 hP.2
+  simp only [bilParams, indicesXY]
+  refine ⟨?_, ?_⟩
+  · split at A <;> simp_all
+  · split at B <;> simp_all
+
+/-- `bilValue` on a bilinear (in particular affine) data field reproduces the field at the bracketed
+position: interpolation is exact for data `a + b·l + c·p + e·l·p` -/
+theorem bilValue_exact (a b c e : Rat) (la lb pa pb : Int) (wl wp : Rat) :
+    bilValue (fun l p => a + b * l + c * p + e * l * p) (la, lb, wl, pa, pb, wp) =
+      a + b * (la + wl * ((lb : Rat) - la)) + c * (pa + wp * ((pb : Rat) - pa)) +
+        e * (la + wl * ((lb : Rat) - la)) * (pa + wp * ((pb : Rat) - pa)) := by
+  simp only [bilValue]; ring
+
+/-- `bilValue` is a convex combination: between the least and greatest of the four corner values -/
+theorem bilValue_convex (data : Int → Int → Rat) (la lb pa pb : Int) (wl wp lo hi : Rat)
+    (hwl : 0 ≤ wl ∧ wl ≤ 1) (hwp : 0 ≤ wp ∧ wp ≤ 1)
+    (h1 : lo ≤ data la pa ∧ data la pa ≤ hi) (h2 : lo ≤ data la pb ∧ data la pb ≤ hi)
+    (h3 : lo ≤ data lb pa ∧ data lb pa ≤ hi) (h4 : lo ≤ data lb pb ∧ data lb pb ≤ hi) :
+    lo ≤ bilValue data (la, lb, wl, pa, pb, wp) ∧ bilValue data (la, lb, wl, pa, pb, wp) ≤ hi := by
+  simp only [bilValue]
+  have a1 : 0 ≤ (1 - wl) * (1 - wp) := mul_nonneg (by linarith) (by linarith)
+  have a2 : 0 ≤ (1 - wl) * wp := mul_nonneg (by linarith) hwp.1
+  have a3 : 0 ≤ wl * (1 - wp) := mul_nonneg hwl.1 (by linarith)
+  have a4 : 0 ≤ wl * wp := mul_nonneg hwl.1 hwp.1
+  have s : (1 - wl) * (1 - wp) + (1 - wl) * wp + wl * (1 - wp) + wl * wp = 1 := by ring
+  constructor
+  · nlinarith [mul_le_mul_of_nonneg_left h1.1 a1, mul_le_mul_of_nonneg_left h2.1 a2, mul_le_mul_of_nonneg_left h3.1 a3, mul_le_mul_of_nonneg_left h4.1 a4]
+  · nlinarith [mul_le_mul_of_nonneg_left h1.2 a1, mul_le_mul_of_nonneg_left h2.2 a2, mul_le_mul_of_nonneg_left h3.2 a3, mul_le_mul_of_nonneg_left h4.2 a4]
+
+/-- `block_nn_interpolator`: in range, and the nearest pixel for in-range indices -/
+theorem blockNN_range (i : Rat) (n : Nat) (hn : 0 < n) : 0 ≤ blockNN i n ∧ blockNN i n ≤ (n : Int) - 1 := by
+  unfold blockNN clampI; split
+  · omega
+  · split <;> omega
+
+theorem blockNN_nearest (i : Rat) (n : Nat) (h0 : 0 ≤ i) (h1 : i ≤ (n : Rat) - 1) :
+    absQ (i - blockNN i n) ≤ 1/2 := by
+  have hs := roundHalfEven_spec i
+  have lo : 0 ≤ roundHalfEven i := by
+    by_contra hc; push Not at hc
+    have : ((roundHalfEven i : Int) : Rat) ≤ -1 := by exact_mod_cast (by omega : roundHalfEven i ≤ -1)
+    linarith [hs.2]
+  have hi : roundHalfEven i ≤ (n : Int) - 1 := by
+    by_contra hc; push Not at hc
+    have : ((n : Int) : Rat) ≤ ((roundHalfEven i : Int) : Rat) := by exact_mod_cast (by omega : (n : Int) ≤ roundHalfEven i)
+    push_cast at this
+    linarith [hs.1]
+  have : blockNN i n = roundHalfEven i := by
+    unfold blockNN clampI; rw [if_neg (by omega), if_neg (by omega)]
+  rw [this]; unfold absQ; split <;> linarith [hs.1, hs.2]
+
+/-- the block-local index arithmetic: a pixel found at global fractional index `g` in a source block that
+starts at `off` is looked up at local index `g - off`; rounding commutes with the integer offset, so the
+block decomposition does not move the chosen pixel -/
+theorem roundHalfEven_sub_int (x : Rat) (k : Int) (h : ∀ c : Int, x ≠ (c : Rat) + 1/2) :
+    roundHalfEven (x - k) = roundHalfEven x - k := by
+  have hs := roundHalfEven_spec x
+  apply roundHalfEven_eq
+  · push_cast
+    have : (roundHalfEven x : Rat) - 1/2 ≠ x := by
+      intro e; apply h (roundHalfEven x - 1); push_cast; linarith
+    have := lt_of_le_of_ne hs.1 this
+    linarith
+  · push_cast
+    have : x ≠ (roundHalfEven x : Rat) + 1/2 := h _
+    have := lt_of_le_of_ne hs.2 this
+    linarith
+
+
+/-! ### non-vacuity: concrete searches -/
+
+/-- a 6 x 8 source (x0 = 10, dx = 2, y0 = 50, dy = 3), target position (X, Y) = (17, 39.5): P = 3.5, L = 3.5,
+started at the grid centre (3, 4) — emitted, exact -/
+example : (searchLoop (affine 10 50 2 3) 5 7 17 (79/2) 5 (3, 4) (3, 4)).1.map indicesXY = some (7/2, 7/2) := by
+  decide +kernel
+
+/-- the same target from the far corner needs the second iteration -/
+example : (searchLoop (affine 10 50 2 3) 5 7 17 (79/2) 5 (0, 0) (0, 0)).1.map indicesXY = some (7/2, 7/2) := by
+  decide +kernel
+
+/-- a target outside the source (P = -1.5) is never emitted -/
+example : (searchLoop (affine 10 50 2 3) 5 7 7 (79/2) 5 (3, 4) (3, 4)).1 = none := by
+  decide +kernel
 
 end PyresampleModel.C09
